@@ -12,9 +12,12 @@ struct C19 {
 	std::deque<std::pair<int, std::string>> expect;     // (opcode, payload) the echo endpoint must return, in order
 	std::string frag; int frag_op = 0; bool frag_comp = false; bool in_frag = false;
 	uint64_t echoed = 0;
+	bool lenient = false;   // an allocation failed while this connection existed: which messages come back is not predictable, but what comes back must still be a valid (inflatable) message
 	bool stray_sent = false, stray_closed = false;   // a FIN continuation frame that continues nothing was sent: RFC 6455 5.4 makes it a protocol error (1002)
 	~C19() { if (def_init) deflateEnd(&def); if (inf_init) inflateEnd(&inf); }
 };
+
+void Client::c19_set_lenient() { if (c19) c19->lenient = true; }
 
 static std::string trim(const std::string &s) { size_t a = s.find_first_not_of(" \t"), b = s.find_last_not_of(" \t"); return a == std::string::npos ? "" : s.substr(a, b - a + 1); }
 
@@ -80,7 +83,7 @@ void World::c19_on_handshake_response(Client &cl, const Frame &f) {
 	if (!cl.c19) cl.c19 = new C19();
 	C19 &c = *cl.c19;
 	c.checked = true;
-	if (cl.c19_broken_by_fault) { c.broken = true; cl.no_expect = true; }
+	if (cl.c19_broken_by_fault) c.lenient = true;
 	if (f.http_status != 101) { probe("c19_upgrade_refused:" + std::to_string(f.http_status)); c.broken = true; cl.no_expect = true; return; }
 	std::string low; for (char ch : f.raw) low += (char)tolower((unsigned char)ch);
 	std::string offer = hexdec(cl.policy.gets("offerhex"));
@@ -214,7 +217,7 @@ void World::c19_on_frame(Client &cl, const Frame &f) {
 	if (!f.minimal) violation("C12", "non-minimal-length", "server frame length is not minimally encoded");
 	if (f.wsop >= 8) {
 		probe("ws_ctrl_from_daemon:" + std::to_string(f.wsop)); if (f.rsv) violation("C19", "compressed-control-frame", "server control frame with RSV bits set");
-		if (f.wsop == 8 && c.stray_sent && !c.broken && !cl.no_expect && c.expect.empty()) {
+		if (f.wsop == 8 && c.stray_sent && !c.broken && !c.lenient && !cl.no_expect && c.expect.empty()) {
 			int st = f.raw.size() >= 2 ? (((unsigned char)f.raw[0]) << 8) | (unsigned char)f.raw[1] : 0;
 			if (st != 1002) violation("C12", "wrong-close-status", "a continuation frame that continues nothing was answered with close status " + std::to_string(st) + " instead of 1002");
 			c.stray_closed = true; probe("c19_stray_continuation_refused");
@@ -235,6 +238,7 @@ void World::c19_on_frame(Client &cl, const Frame &f) {
 		if (!c19_inflate(c, c.frag, msg)) violation("C19", "undecodable-message", "connection c" + std::to_string(cl.idx) + ": a compressed message from the server does not inflate (" + std::to_string(c.frag.size()) + " bytes: " + hexenc(c.frag.substr(0, 24)) + ")");
 		probe("c19_compressed_message_received");
 	} else msg = c.frag;
+	if (c.lenient) { probe("c19_message_after_failed_allocation_decoded"); c.expect.clear(); return; }
 	if (c.expect.empty() && c.stray_sent) violation("C12", "stray-continuation-processed", "connection c" + std::to_string(cl.idx) + ": a FIN continuation frame sent after a completed message (it continues nothing) was handed to the application, which echoed " + std::to_string(msg.size()) + " bytes; the connection had to be failed with status 1002");
 	if (c.expect.empty()) violation("C19", "unsolicited-message", "connection c" + std::to_string(cl.idx) + " received a message (" + std::to_string(msg.size()) + " bytes) that echoes nothing it sent");
 	auto want = c.expect.front(); c.expect.pop_front();
@@ -248,7 +252,7 @@ void World::c19_on_frame(Client &cl, const Frame &f) {
 
 void World::c19_quiescent() {
 	for (auto &cl : clients) {
-		if (!cl.c19 || cl.no_expect || cl.c19->broken) continue;
+		if (!cl.c19 || cl.no_expect || cl.c19->broken || cl.c19->lenient) continue;
 		if (!cl.accepted || cl.client_closed) continue;
 		if (!q.empty()) continue;
 		if (cl.c19->stray_sent && cl.c19->expect.empty() && !cl.c19->stray_closed && !cl.daemon_closed && cl.space < 0 && cl.chunks_queued == 0)
